@@ -142,7 +142,7 @@ func init() {
 	register("c03", func(args []string) int {
 		f := parseFlags("c03", args)
 		rep := newReport("C03", f)
-		rep.Rule = "K1 (transaction core): after every commit of histories of allocations, page writes, page / transaction flushes, manual checkpoints and overwrite-page limits 1/2/3/5/1000 the set of pages that have an overwrite page is compared with the Coq model tx_run/tx_commit (theorem commit_reads); K1: random scripts on the page write buffer of a fresh / an existing page (full, partial and oversize SetBytes, Load, in-place modification + MarkDirty, Bytes, Flush, Free) through the public API vs. the Coq model (result kind and bytes after every step); stall scenarios (13-52 pages flushed, rolled back, re-allocated and rewritten while the writer goroutine is slowed down: both writes to a page land in one batch of more than 12 entries; and: manual checkpoint, then the same transaction overwrites the checkpointed pages again - two queued writes per page id without any rollback); directed: pages merely loaded or read in the transaction whose commit runs the automatic checkpoint; random transaction histories (alloc / full+partial SetBytes / Load+MarkDirty / Load / read / free / Flush / page Flush / CheckpointWAL / SetRoot / commit / rollback / close / reopen / concurrent readers) on 8 file configurations; every read inside and outside transactions is compared with a sequential map model; non-trivial = history with at least one committed write; distinct by (config, op-kind multiset)"
+		rep.Rule = "K1 (writer queue): Schedule / Sync / nextCommand scripts vs. Model/WriterQueue.v; K1 (transaction core): after every commit of histories of allocations, page writes, page / transaction flushes, manual checkpoints and overwrite-page limits 1/2/3/5/1000 the set of pages that have an overwrite page is compared with the Coq model tx_run/tx_commit (theorem commit_reads); K1: random scripts on the page write buffer of a fresh / an existing page (full, partial and oversize SetBytes, Load, in-place modification + MarkDirty, Bytes, Flush, Free) through the public API vs. the Coq model (result kind and bytes after every step); stall scenarios (13-52 pages flushed, rolled back, re-allocated and rewritten while the writer goroutine is slowed down: both writes to a page land in one batch of more than 12 entries; and: manual checkpoint, then the same transaction overwrites the checkpointed pages again - two queued writes per page id without any rollback); directed: pages merely loaded or read in the transaction whose commit runs the automatic checkpoint; random transaction histories (alloc / full+partial SetBytes / Load+MarkDirty / Load / read / free / Flush / page Flush / CheckpointWAL / SetRoot / commit / rollback / close / reopen / concurrent readers) on 8 file configurations; every read inside and outside transactions is compared with a sequential map model; non-trivial = history with at least one committed write; distinct by (config, op-kind multiset)"
 		if f.replay != "" {
 			rp, err := loadHistReplay(f.replay)
 			if err != nil {
@@ -168,6 +168,7 @@ func init() {
 		defer m.Close()
 		pageK1(rep, m, r, n/2)
 		walK1(rep, m, r, n/3)
+		writerQueueK1(rep, m, r, n)
 		rep.ModelCalls = m.N
 		for i := 0; i < n/10+3; i++ {
 			stallScenario(rep, r)
